@@ -19,7 +19,7 @@ PRODUCERS = [q for q, (_, role) in O.QUERIES.items() if role == "P"]
 CONSUMERS = [q for q, (_, role) in O.QUERIES.items() if role in ("C", "X")]
 EXPORTS = [q for q, (_, role) in O.QUERIES.items() if role == "X"]
 ISOLATED_SHARE = 0.25
-FORK_OPS = ["deepcopy", "deepcopy", "pickle", "pickle", "reload", "reload", "derive_P1", "derive_cif", "derive_res", "stranger", "stranger", "other", "other", "drop"]
+FORK_OPS = ["deepcopy", "deepcopy", "pickle", "pickle", "reload", "reload", "derive_P1", "derive_cif", "derive_res", "derive_supercell", "stranger", "stranger", "other", "other", "drop"]
 RADII = [1.5, 3.0, 3.8, 6.0, 9.0]
 BOUNDS = [
     [[-1, -1, -1], [1, 1, 1]],
@@ -270,8 +270,9 @@ def template_run(verif_seed, index, stratum="template"):
     A = gen_args(rng, is_large(spec))
     ref_mode = ref_mode_for(rng)
     plan = []
+    target = 0
     if q1:
-        plan.append({"h": 0, "op": q1})
+        plan.append({"h": target, "op": q1})
     state = {"i": 0, "plan": plan, "expanded": False}
 
     def producer(sim, fb):
@@ -284,12 +285,37 @@ def template_run(verif_seed, index, stratum="template"):
             other = "toR" if choice == "H" else "toH"
             back = "toH" if choice == "H" else "toR"
             tail = {"switch": [other], "switch2": [other, back], "normH": ["normH"]}[mut]
-            rest = [{"h": 0, "op": m} for m in tail] + [{"h": 0, "op": q2}]
+            rest = [{"h": target, "op": m} for m in tail] + [{"h": target, "op": q2}]
             rest += audit_steps(1, rng.sample(FAST_QUERIES, 4 if is_large(spec) else 6))
             state["rest"] = iter(rest)
         return next(state["rest"], None)
 
     return _drive(spec, A, stratum, index, producer, ref_mode)
+
+
+# ------------------------------------------------ a large derived crystal
+BIG_FIRST = [None, "uc_atoms", "uc_mols"]
+BIG_MID = [None, "normH"]
+BIG_LAST = ["uc_atoms", "slab", "conn", "uc_mols", "sym_mols", "air", "asur", "density", "poscar", "cif", "res", "sl_poscar"]
+N_BIG = len(BIG_FIRST) * len(BIG_MID) * len(BIG_LAST)
+
+
+def big_run(verif_seed, index, stratum="big"):
+    """A 2196-site P1 supercell derived from the r3c file joins the world and
+    is used on its own: first query, optional mutator, last query asked twice.
+    Code paths that only exist beyond a size threshold run nowhere else."""
+    rng = random.Random(run_seed(verif_seed, stratum, index))
+    i = index % N_BIG
+    i, l = divmod(i, len(BIG_LAST))
+    i, m = divmod(i, len(BIG_MID))
+    first, mid, last = BIG_FIRST[i % len(BIG_FIRST)], BIG_MID[m], BIG_LAST[l]
+    spec = {"kind": "file", "name": "r3c_example.cif"}
+    A = gen_args(rng, large=True)
+    steps = [{"h": 0, "op": "derive_supercell"}]
+    steps += [{"h": 1, "op": x} for x in (first, mid) if x]
+    steps += [{"h": 1, "op": last}, {"h": 1, "op": last}, {"h": 1, "op": "uc_atoms"}, {"h": 0, "op": "density"}]
+    it = iter(steps)
+    return _drive(spec, A, stratum, index, lambda sim, fb: next(it, None), ref_mode_for(rng))
 
 
 # ------------------------------------------- three-object fork patterns
